@@ -11,6 +11,8 @@ TECH = {
     'E3': "exhaustive enumeration of chunk-to-worker schedules of the process pool (virtual pool at the seam)",
 }
 
+READY = ["C01", "C03", "C12"]      # properties whose checks are finished and registered
+
 NOT_BUILT = "check not built yet in this round (design in DESIGN.md section 4); not claimed"
 
 
@@ -20,6 +22,8 @@ def main():
     for p in props:
         pid = p['id']
         try:
+            if pid not in READY:
+                raise ImportError(pid)
             mod = importlib.import_module('mc.props.' + pid.lower())
         except ImportError:
             na.append(dict(property_id=pid, reason=NOT_BUILT))
